@@ -81,6 +81,9 @@ def judge(sess, o):
     open_conns = [c.cid for c in sess.gw.conns if not (c.closed_by_client or c.lost or c.reset or c.eof_sent)]
     if open_conns:
         out.append(("connection_left_open", {}, f"connections {open_conns} never closed by the client"))
+    still = [x for x in o.marks.get("open_at_close_return", []) if x]
+    if still:
+        out.append(("close_returned_before_link_shut", {}, f"connection(s) {still[0]} still open when a close() call returned"))
     if not sess.close_returned:
         out.append(("close_did_not_return", {}, f"close() had not returned when the execution ended ({o.end_reason})"))
     if o.cb_active_after_close:
@@ -153,7 +156,7 @@ def plan(ctx):
                 tasks.append((kind, "r0", mode, 2, all_names))
                 tasks.append((kind, "r3", mode, 1, ["close"]))
             else:
-                tasks.append((kind, "r1", mode, 2, ["close", "reset", "connect2", "send"] if mode != "ok" else all_names))
+                tasks.append((kind, "r1", mode, 2, ["close", "close2", "reset", "connect2", "send"] if mode != "ok" else all_names))
                 tasks.append((kind, "r0", mode, 1, ["close"]))
     for kind in ("ebyte", "yd", "waveshare"):
         # close() while a send() is suspended in drain() under back-pressure, then the link fails
